@@ -9,6 +9,7 @@ import (
 	"strings"
 
 	mxj "github.com/clbanning/mxj/v2"
+	"github.com/clbanning/mxj/v2/j2x"
 )
 
 // deepSortLists sorts every list by canonical text (used only when a wildcard makes the
@@ -30,6 +31,15 @@ func deepSortLists(v interface{}) interface{} {
 		return o
 	}
 	return v
+}
+
+func hasWildPairs(pairs []string) bool {
+	for _, p := range pairs {
+		if strings.Contains(p, "*") {
+			return true
+		}
+	}
+	return false
 }
 
 func pairParts(p string) (string, string, bool) {
@@ -55,6 +65,23 @@ func c12Exec(op string) string {
 	note := ""
 	if !deepEq(before, m) {
 		note = "receiver modified by NewMap"
+	}
+	// the JSON wrappers of NewMap fail exactly when NewMap fails, and return its Map
+	if note == "" {
+		if jtxt, jerr := mxj.Map(m).Json(); jerr == nil {
+			w1, e1 := j2x.JsonNewJson(jtxt, pairs...)
+			_, e2 := j2x.JsonNewXml(jtxt, pairs...)
+			switch {
+			case (e1 == nil) != (err == nil):
+				note = fmt.Sprintf("WRAPPER j2x.JsonNewJson error=%v but Map.NewMap error=%v", e1, err)
+			case err != nil && e2 == nil:
+				note = "WRAPPER j2x.JsonNewXml succeeded although Map.NewMap rejects the pairs"
+			case err == nil:
+				if back, berr := mxj.NewMapJson(w1); berr != nil || (!hasWildPairs(pairs) && enc(deepSortLists(toFloats(map[string]interface{}(back)))) != enc(deepSortLists(toFloats(map[string]interface{}(n))))) {
+					note = "WRAPPER j2x.JsonNewJson returns a different Map than Map.NewMap"
+				}
+			}
+		}
 	}
 	// malformed pairs as the documentation of NewMap lists them: more than one ':', a new key
 	// (explicit or shorthand) with a wildcard or an index, an empty old or new part
